@@ -317,6 +317,7 @@ func (p *path) checkHungSafe(g string) (r string) {
 				p.sv.send(l)
 			}
 			p.sv.log = savedLog
+			p.sv.hungJustRestarted = true
 			r = "unknown"
 		}
 	}()
@@ -328,8 +329,30 @@ func (p *path) checkHungSafe(g string) (r string) {
 }
 
 // check decides pc ∧ g.
+// resync replaces the worker's solver process by a fresh one and re-sends the path's script. It is used after
+// the session answered unknown (a per-query timeout): z3 4.8.12 sessions were observed to answer later queries
+// of the same session wrongly after a timed-out check (the sampled cross-check found disagreements only in
+// runs with timeouts), so a session is never trusted again once it has timed out.
+func (p *path) resync() {
+	if err := p.sv.restart(); err != nil {
+		panic(engineError{"cannot restart the solver session: " + err.Error()})
+	}
+	atomic.AddInt64(&p.ex.res.SolverHangs, 1)
+	savedLog := p.sv.log
+	p.sv.log = nil
+	p.sv.send("(push 1)") // the path's own scope (runPath pops it at the end)
+	for _, l := range p.script {
+		p.sv.send(l)
+	}
+	p.sv.log = savedLog
+}
+
 func (p *path) check(g string) string {
 	r := p.checkHungSafe(g)
+	if r == "unknown" && !p.sv.hungJustRestarted {
+		p.resync()
+	}
+	p.sv.hungJustRestarted = false
 	if r == "unknown" {
 		r = p.solveFresh(g)
 	}
